@@ -17,6 +17,44 @@ def history(job):
     return out
 
 
+def solver_history(job):
+    """A list of optimiser calls executed one after another in ONE process: digests of the returned matrices."""
+    common.use_repo()
+    import numpy as np
+    from fast_ticc import admm
+    from .. import proj
+    out = []
+    for (seed, N, W, factor, lam) in job:
+        rng = np.random.default_rng(seed)
+        a = rng.normal(size=(3 * N * W, N * W))
+        S = np.cov(a, rowvar=False) * factor if N * W > 1 else np.array([[1.25 * factor]])
+        S = np.atleast_2d(S)
+        try:
+            res = admm.admm_optimize_theta(S, lam, W, N)
+            out.append({"key": f"{seed}/{N}x{W}/{factor!r}/{lam!r}", "dig": proj.dig(res.theta)})
+        except Exception as ex:                              # pylint: disable=broad-except
+            out.append({"key": f"{seed}/{N}x{W}/{factor!r}/{lam!r}", "dig": "raised:" + type(ex).__name__})
+    return out
+
+
+def build_solver_histories(tier):
+    """The same solve (a) first in its process, (b) after a nearly identical problem (what consecutive rounds hand to
+    one worker: a warm start or memo keyed on 'almost the same input' would change the bits), (c) after itself,
+    (d) after problems of another shape."""
+    rng = random.Random(common.seed() * 69621 + 14)
+    hist = []
+    for i in range(6 if tier == "quick" else 40):
+        N, W = rng.choice([(2, 2), (3, 2), (2, 3), (1, 3), (3, 1)])
+        seed = rng.randrange(1 << 30)
+        lam = rng.choice([0.05, 0.11, 0.5])
+        target = (seed, N, W, 1.0, lam)
+        near = (seed, N, W, 1.0 + 2.0 ** -10, lam)
+        near2 = (seed, N, W, 1.0 - 2.0 ** -12, lam)
+        other = (rng.randrange(1 << 30), W, N + 1, 1.0, lam)
+        hist += [[target], [near, target], [near2, near, target], [target, target], [other, target], [other, near, target]]
+    return common.pmap(solver_history, hist)
+
+
 def build(tier):
     rng = random.Random(common.seed() * 48271 + 14)
     nbase = 3 if tier == "quick" else 12
@@ -88,6 +126,23 @@ def run(tier):
         rep.violation(fl[0][1], {"events": memo[gi]["events"], "clauses": fl})
     rep.cov["evaluations"] += sum(len(m["events"]) for m in memo)
     rep.cov["traces_validated_against_impl"] += len(acc)
+    # the optimiser entry point (what the workers run): independent of the calls made earlier in the same process
+    sh = corpus.cached(f"solverhist_{tier}_{common.seed()}", lambda: build_solver_histories(tier))
+    by_key = {}
+    for hist in sh:
+        for pos, e in enumerate(hist):
+            by_key.setdefault(e["key"], []).append({"key": e["key"], "dig": e["dig"], "completed": True, "P": 0, "mp": False,
+                                                    "delay": "solver", "position_in_history": pos})
+    memo2 = [{"pid": "C14", "clause": "optimiser_result_independent_of_earlier_calls_in_the_process", "events": evs}
+             for key, evs in sorted(by_key.items()) if len(evs) > 1]
+    acc2, fail2, res2 = tracecheck.validate("TraceMemo", memo2, {"C14"})
+    for r in res2:
+        rep.add_tlc(r)
+    for gi, fl in sorted(fail2.items()):
+        rep.violation(fl[0][1], {"events": memo2[gi]["events"], "clauses": fl})
+    rep.cov["evaluations"] += sum(len(m["events"]) for m in memo2)
+    rep.cov["traces_validated_against_impl"] += len(acc2)
+    rep.notes["solver_histories"] = len(sh)
     # completion-order permutations actually happened?  (worker results arrive out of task order)
     permuted = 0
     for t in traces_for_loop:
